@@ -2263,6 +2263,7 @@ fn c20(a: &ShardArgs) -> Result<(), String> {
             callbacks::application_adapter(a, &mut r);
             callbacks::information_adapter(a, &mut r);
             callbacks::promise_adapters(a, &mut r);
+            callbacks::attribute_adapters(a, &mut r);
         }
         callbacks::builders(a, &mut r, if cfg!(miri) { 6 } else { a.n(150) as usize });
         if !cfg!(miri) {
